@@ -1,6 +1,6 @@
 import FsutilModel.Model.FollowLinks
 import FsutilModel.Lex
-/-! # C18 — FollowLinks: de-duplication -/
+/-! # C18 — FollowLinks: shape of the result (sorted, prefix-free, root rule) and de-duplication -/
 namespace Fsm.C18
 open FL
 
@@ -79,5 +79,134 @@ theorem dedupe_go_prefix_free : ∀ (l : List Path) (last : Path) (out : List Pa
 theorem dedupe_prefix_free (l r : List Path) (hs : l.Pairwise (fun a b => strLt a b = true))
     (h : dedupePaths true l = some r) : ∀ a ∈ r, ∀ b ∈ r, ¬ (a ++ [47]) <+: b :=
   dedupe_go_prefix_free l [] [] r hs (by simp) (by simp) h
+
+abbrev SortedB (l : List Path) : Prop := l.Pairwise (fun a b => strLt a b = true)
+
+theorem insertSortedB_mem (x : Path) : ∀ (ys : List Path) (z : Path), z ∈ insertSortedB x ys → z = x ∨ z ∈ ys := by
+  intro ys
+  induction ys with
+  | nil => intro z h; simp [insertSortedB] at h; exact Or.inl h
+  | cons y ys ih =>
+    intro z h
+    simp only [insertSortedB, lexLtBytes] at h
+    by_cases hxy : strLt x y = true
+    · simp only [hxy, if_true] at h
+      simp at h; rcases h with h | h | h
+      · exact Or.inl h
+      · exact Or.inr (by simp [h])
+      · exact Or.inr (by simp [h])
+    · simp only [hxy, if_false] at h
+      by_cases he : x = y
+      · simp only [he, if_true] at h
+        exact Or.inr h
+      · simp only [he, if_false] at h
+        simp at h; rcases h with h | h
+        · exact Or.inr (by simp [h])
+        · rcases ih z h with h | h
+          · exact Or.inl h
+          · exact Or.inr (by simp [h])
+
+theorem insertSortedB_sorted (x : Path) : ∀ ys : List Path, SortedB ys → SortedB (insertSortedB x ys) := by
+  intro ys
+  induction ys with
+  | nil => intro _; simp [insertSortedB, SortedB]
+  | cons y ys ih =>
+    intro hs
+    have hc := List.pairwise_cons.mp hs
+    simp only [insertSortedB, lexLtBytes]
+    by_cases hxy : strLt x y = true
+    · simp only [hxy, if_true]
+      refine List.pairwise_cons.mpr ⟨?_, hs⟩
+      intro z hz
+      simp at hz
+      rcases hz with rfl | hz
+      · exact hxy
+      · exact strLt_trans hxy (hc.1 z hz)
+    · simp only [hxy, if_false]
+      by_cases hne : x = y
+      · simp only [hne, if_true]; exact hs
+      · simp only [hne, if_false]
+        have hyx : strLt y x = true := by
+          rcases strLt_total x y with h | h | h
+          · exact absurd h hne
+          · exact absurd h hxy
+          · exact h
+        refine List.pairwise_cons.mpr ⟨?_, ih hc.2⟩
+        intro z hz
+        rcases insertSortedB_mem x ys z hz with rfl | hz
+        · exact hyx
+        · exact hc.1 z hz
+
+theorem sortBytes_sorted (l : List Path) : SortedB (sortBytes l) := by
+  unfold sortBytes
+  suffices h : ∀ acc, SortedB acc → SortedB (l.foldl (fun acc x => insertSortedB x acc) acc) from h [] (by simp [SortedB])
+  induction l with
+  | nil => intro acc h; simpa using h
+  | cons x xs ih => intro acc h; simp only [List.foldl_cons]; exact ih _ (insertSortedB_sorted x acc h)
+
+/-- the kept elements are a sublist of the input (in order) -/
+theorem dedupe_go_sublist (fixed : Bool) : ∀ (l : List Path) (last : Path) (out r : List Path),
+    dedupePaths.go fixed l last out = some r → ∃ k, r = out.reverse ++ k ∧ k.Sublist l := by
+  intro l
+  induction l with
+  | nil =>
+    intro last out r h
+    simp only [dedupePaths.go, Option.some.injEq] at h
+    exact ⟨[], by simp [h], List.Sublist.refl _⟩
+  | cons s rest ih =>
+    intro last out r h
+    simp only [dedupePaths.go] at h
+    split at h
+    · cases h
+    · split at h
+      · split at h
+        · obtain ⟨k, hk, hsub⟩ := ih _ _ _ h
+          exact ⟨k, hk, hsub.cons _⟩
+        · obtain ⟨k, hk, hsub⟩ := ih _ _ _ h
+          exact ⟨s :: k, by simp [hk], hsub.cons_cons _⟩
+      · split at h
+        · obtain ⟨k, hk, hsub⟩ := ih _ _ _ h
+          exact ⟨k, hk, hsub.cons _⟩
+        · obtain ⟨k, hk, hsub⟩ := ih _ _ _ h
+          exact ⟨s :: k, by simp [hk], hsub.cons_cons _⟩
+
+theorem dedupe_sorted (fixed : Bool) (l r : List Path) (hs : SortedB l) (h : dedupePaths fixed l = some r) : SortedB r := by
+  obtain ⟨k, hk, hsub⟩ := dedupe_go_sublist fixed l [] [] r h
+  simp at hk
+  subst hk
+  exact hs.sublist hsub
+
+/-- **Shape of every FollowLinks result** (transcribed resolver, repaired de-duplication): for every tree, every request
+list and every fuel the result is bytewise sorted, and no element is inside another. -/
+theorem followLinks_sorted_prefix_free (l : List Ent) (paths : List Path) (fuel : Nat) (r : List Path)
+    (h : followLinks true l paths fuel = some r) :
+    SortedB r ∧ ∀ a ∈ r, ∀ b ∈ r, ¬ (a ++ [47]) <+: b := by
+  unfold followLinks at h
+  exact ⟨dedupe_sorted true _ r (sortBytes_sorted _) h, dedupe_prefix_free _ r (sortBytes_sorted _) h⟩
+
+/-- the result is "everything" (no list) exactly when the root itself was resolved -/
+theorem dedupe_none_iff_root (fixed : Bool) (l : List Path) : dedupePaths fixed l = none ↔ [dot] ∈ l := by
+  unfold dedupePaths
+  suffices h : ∀ (l : List Path) (last : Path) (out : List Path), dedupePaths.go fixed l last out = none ↔ [dot] ∈ l from h l [] []
+  intro l
+  induction l with
+  | nil => intro last out; simp [dedupePaths.go]
+  | cons s rest ih =>
+    intro last out
+    simp only [dedupePaths.go]
+    split
+    · rename_i hs; simp [hs]
+    · rename_i hs
+      have : ([dot] ∈ s :: rest) ↔ [dot] ∈ rest := by
+        simp only [List.mem_cons]
+        constructor
+        · rintro (h | h)
+          · exact absurd h.symm hs
+          · exact h
+        · exact Or.inr
+      rw [this]
+      split
+      · split <;> exact ih _ _
+      · split <;> exact ih _ _
 
 end Fsm.C18
